@@ -214,7 +214,7 @@ func shutResRun(w *World) {
 	var cfg resCfg
 	g.initial(&cfg)
 	r := newRealRes(cfg, &simClock{}, &simRNG{})
-	nw := t.Choose(3)
+	nw := t.Choose(4)
 	var writers []*writer
 	for i := 0; i < nw; i++ {
 		wr := &writer{name: fmt.Sprintf("w%d", i)}
